@@ -123,6 +123,7 @@ def new_phonopy(cfgobj, quiet=True, **override):
     cr = CRYSTALS[cfgobj["cell"]["name"]]
     calc = None if cfgobj["calc"] == "none" else cfgobj["calc"]
     lattice = override.pop("lattice", None)
+    pmat = override.pop("pmat", "table")
     opt = dict(NP_OBJ0)
     opt.update(cfgobj.get("np") or {})
     opt.update(override)
@@ -131,7 +132,7 @@ def new_phonopy(cfgobj, quiet=True, **override):
     if lattice is not None:
         ucell.cell = lattice
     with contextlib.redirect_stdout(io.StringIO()):
-        ph = Phonopy(ucell, supercell_matrix=cr["smat"], primitive_matrix=cr["pmat"],
+        ph = Phonopy(ucell, supercell_matrix=cr["smat"], primitive_matrix=(cr["pmat"] if isinstance(pmat, str) and pmat == "table" else pmat),
                      factor=factor, calculator=calc, use_SNF_supercell=bool(opt["snf"]), symprec=SYMPREC[opt["tol"]],
                      is_symmetry=bool(opt["issym"]), store_dense_svecs=bool(opt["dense"]))
     return ph
@@ -801,7 +802,8 @@ def project(world, ph2, err, wr=None):
                 try:
                     cands["produced" + ("" if sym else "_raw")] = produced_fc(
                         cfg["obj"], world.src_ds[dsobs["src"]], fcobs["layout"] == "compact", symmetrize=sym,
-                        issym=obs["np"]["issym"], tol=obs["np"]["tol"] if obs["np"]["tol"] in SYMPREC else "default")
+                        issym=obs["np"]["issym"], tol=obs["np"]["tol"] if obs["np"]["tol"] in SYMPREC else "default",
+                        pmat=ph2.primitive_matrix)
                 except Exception:
                     pass
         src, dist = nearest_source(fc2, cands, close=1e-6)
